@@ -16,7 +16,8 @@ type Table = KBucketsTable<NodeId, Enr>;
 
 /// Deterministic record for a value token `v<id>:<subnet|->`.
 fn make_val(id: u64, subnet: Option<u64>) -> Enr {
-    let mut r = Rng::new(id.wrapping_mul(0x1234_5678_9ABC_DEF1) ^ 0xA5A5);
+    // all record variants of one table key (ids 8k .. 8k+7) are records of one node: same signing key
+    let mut r = Rng::new((id / 8).wrapping_mul(0x1234_5678_9ABC_DEF1) ^ 0xA5A5);
     let key: CombinedKey = key_from(&mut r);
     let ip4 = subnet.map(|s| (Ipv4Addr::new(10, (s >> 8) as u8, s as u8, (id % 250 + 1) as u8), 9000 + (id % 1000) as u16));
     make_enr(&key, id + 1, ip4, None, 0)
@@ -595,6 +596,45 @@ impl Runner for KbucketRunner {
                 };
                 out.push(r);
             }
+            // configuration-level check of C16: a node built through `Discv5::new` with `ip_limit`
+            // enforces the /24 limits whatever its listen mode (monitor only; the model answers "ok")
+            ["kdiscv5", mode, seed] => {
+                let seed: u64 = seed.parse().unwrap_or(1);
+                let mut r = Rng::new(0xD15C_0000 + seed);
+                let key = key_from(&mut r);
+                let lc = match *mode {
+                    "ip6" => discv5::ListenConfig::Ipv6 { ip: std::net::Ipv6Addr::LOCALHOST, port: 9000 },
+                    "dual" => discv5::ListenConfig::DualStack { ipv4: Ipv4Addr::LOCALHOST, ipv4_port: 9000, ipv6: std::net::Ipv6Addr::LOCALHOST, ipv6_port: 9001 },
+                    _ => discv5::ListenConfig::Ipv4 { ip: Ipv4Addr::LOCALHOST, port: 9000 },
+                };
+                let local = make_enr(&key, 1, Some((Ipv4Addr::new(127, 0, 0, 1), 9000)), Some((std::net::Ipv6Addr::LOCALHOST, 9001)), 0);
+                let cfg = discv5::ConfigBuilder::new(lc).ip_limit().build();
+                if let Ok(d) = discv5::Discv5::new(local, key, cfg) {
+                    let mut per_bucket: HashMap<usize, usize> = HashMap::new();
+                    let mut total = 0usize;
+                    let lid = d.local_enr().node_id().raw();
+                    for i in 0..120u64 {
+                        let k = key_from(&mut r);
+                        // dual-stack records of one /24 (contactable in every listen mode)
+                        let e = make_enr(&k, 1, Some((Ipv4Addr::new(192, 168, 7, (i % 250 + 1) as u8), 9000 + i as u16)),
+                            Some((std::net::Ipv6Addr::new(0x2001, 0xdb8, 0, 0, 0, 0, 0, i as u16 + 1), 9000)), 0);
+                        if d.add_enr(e.clone()).is_ok() {
+                            total += 1;
+                            if let Some(b) = log2_dist(&lid, &e.node_id().raw()) {
+                                *per_bucket.entry(b).or_insert(0) += 1;
+                            }
+                        }
+                    }
+                    stats.bump("kb.discv5-config-check");
+                    if total > 10 {
+                        out.push(format!("!MON C16 table-subnet-limit-not-enforced-by-configured-node mode={} n={}", mode, total));
+                    }
+                    if let Some((b, n)) = per_bucket.iter().find(|(_, n)| **n > 2) {
+                        out.push(format!("!MON C16 bucket-subnet-limit-not-enforced-by-configured-node mode={} bucket={} n={}", mode, b, n));
+                    }
+                }
+                out.push("ok".into());
+            }
             ["kdump"] => {
                 let snap = self.snapshot();
                 out.push(Self::dump(&snap));
@@ -674,6 +714,7 @@ pub fn gen_case(rng: &mut Rng, tier: &str, profile: &str, stats: &mut Stats) -> 
     let nsub = rng.range(2, 3);
     let mut next_val = 0u64;
     let mut vals: Vec<Vec<String>> = Vec::new();
+    let mut key_no = 0u64;
     let nhot_keys = keys.len().saturating_sub(nspread as usize + 9);
     for (kidx, _) in keys.iter().enumerate() {
         let mut v = Vec::new();
@@ -687,13 +728,14 @@ pub fn gen_case(rng: &mut Rng, tier: &str, profile: &str, stats: &mut Stats) -> 
                 // spread keys: mostly the same /24, to saturate the table limit
                 match rng.below(10) { 0 => None, 1 | 2 => Some(1), _ => Some(0) }
             };
+            next_val = key_no * 8 + j as u64;
             v.push(format!("v{}:{}", next_val, sub.map(|s| s.to_string()).unwrap_or_else(|| "-".into())));
-            next_val += 1;
             if j == 0 && rng.chance(1, 2) {
                 break;
             }
         }
         vals.push(v);
+        key_no += 1;
     }
     if directed_c07 {
         // directed prefix: a full bucket with several disconnected and connected nodes, a pending
@@ -705,7 +747,7 @@ pub fn gen_case(rng: &mut Rng, tier: &str, profile: &str, stats: &mut Stats) -> 
         for j in 0..16 {
             let k = key_at(&local, hb, rng);
             ops.push(format!("kins {} v{}:- {} o", hx(&k), fresh, if j < ndis { "d" } else { "c" }));
-            fresh += 1;
+            fresh += 8;
         }
         let pk = key_at(&local, hb, rng);
         ops.push(format!("kins {} v{}:- c {}", hx(&pk), fresh, if rng.chance(1, 2) { "i" } else { "o" }));
@@ -733,7 +775,7 @@ pub fn gen_case(rng: &mut Rng, tier: &str, profile: &str, stats: &mut Stats) -> 
             members.push(k);
             let (st, dir) = if j == 0 { ("d", "i") } else if j < max_in { ("c", "i") } else { ("c", "o") };
             ops.push(format!("kins {} v{}:- {} {}", hx(&k), fresh, st, dir));
-            fresh += 1;
+            fresh += 8;
         }
         let pk = key_at(&local, hb, rng);
         ops.push(format!("kins {} v{}:- c i", hx(&pk), fresh));
@@ -752,11 +794,11 @@ pub fn gen_case(rng: &mut Rng, tier: &str, profile: &str, stats: &mut Stats) -> 
             let k = key_at(&local, hb, rng);
             members.push(k);
             ops.push(format!("kins {} v{}:- {} o", hx(&k), fresh, if j == 0 { "d" } else { "c" }));
-            fresh += 1;
+            fresh += 8;
         }
         let pk = key_at(&local, hb, rng);
         ops.push(format!("kins {} v{}:- c o", hx(&pk), fresh));
-        fresh += 1;
+        fresh += 8;
         ops.push(format!("krm {}", hx(&members[0])));
         let nk = key_at(&local, hb, rng);
         ops.push(format!("kins {} v{}:- c o", hx(&nk), fresh));
@@ -778,11 +820,11 @@ pub fn gen_case(rng: &mut Rng, tier: &str, profile: &str, stats: &mut Stats) -> 
             members.push(k);
             let sub = if j == 3 || j == 9 { "0" } else { "-" };
             ops.push(format!("kins {} v{}:{} {} o", hx(&k), fresh, sub, if j < 2 { "d" } else { "c" }));
-            fresh += 1;
+            fresh += 8;
         }
         let pk = key_at(&local, hb, rng);
         ops.push(format!("kins {} v{}:1 c o", hx(&pk), fresh));
-        fresh += 1;
+        fresh += 8;
         ops.push(format!("krm {}", hx(&members[rng.range(4, 8) as usize])));
         if rng.chance(1, 2) {
             ops.push(format!("kins {} v{}:0 c o", hx(&pk), fresh));
@@ -805,7 +847,7 @@ pub fn gen_case(rng: &mut Rng, tier: &str, profile: &str, stats: &mut Stats) -> 
             let k = key_at(&local, hb, rng);
             hot_keys.push(k);
             ops.push(format!("kins {} v{}:- {} o", hx(&k), fresh, if j < 2 { "d" } else { "c" }));
-            fresh += 1;
+            fresh += 8;
         }
         let near = rng.range(7, 10);
         let mut b = 20usize;
@@ -814,7 +856,7 @@ pub fn gen_case(rng: &mut Rng, tier: &str, profile: &str, stats: &mut Stats) -> 
             // at most two of one /24 per bucket: use a new bucket every second record
             let k = key_at(&local, b, rng);
             ops.push(format!("kins {} v{}:0 c o", hx(&k), fresh));
-            fresh += 1;
+            fresh += 8;
             placed += 1;
             if placed % 2 == 0 {
                 b += 3;
@@ -822,12 +864,12 @@ pub fn gen_case(rng: &mut Rng, tier: &str, profile: &str, stats: &mut Stats) -> 
         }
         let pk = key_at(&local, hb, rng);
         ops.push(format!("kins {} v{}:0 c o", hx(&pk), fresh));
-        fresh += 1;
+        fresh += 8;
         for _ in 0..rng.range(1, 4) {
             b += 3;
             let k = key_at(&local, b, rng);
             ops.push(format!("kins {} v{}:0 c o", hx(&k), fresh));
-            fresh += 1;
+            fresh += 8;
         }
         if sleeps {
             ops.push("ksleep 450".into());
@@ -904,6 +946,9 @@ pub fn gen_case(rng: &mut Rng, tier: &str, profile: &str, stats: &mut Stats) -> 
         if rng.chance(1, 6) {
             ops.push("kdump".into());
         }
+    }
+    if profile == "C16" && rng.chance(1, 4) {
+        ops.push(format!("kdiscv5 {} {}", rng.pick(&["ip4", "ip6", "dual"]), rng.below(1000)));
     }
     ops.push("kiter".into());
     ops.push("kdump".into());
